@@ -513,6 +513,10 @@ func patchBadgerClock(gen string, replace map[string]string) {
 	sites := map[string]string{
 		"iterator.go": "return expiresAt <= uint64(time.Now().Unix())",
 		"structs.go":  "e.ExpiresAt = uint64(time.Now().Add(dur).Unix())",
+		// DB.Update: between the caller's closure returning and the commit lies the window in which a
+		// concurrent transaction can commit first (conflict) or a buffer handed to the transaction can
+		// be reused; the library is not instrumented, so that one point is made visible to the scheduler
+		"txn.go": "\tif err := fn(txn); err != nil {\n\t\treturn err\n\t}\n\n\treturn txn.Commit()\n}",
 	}
 	for f, line := range sites {
 		b, err := os.ReadFile(filepath.Join(dir, f))
@@ -521,13 +525,20 @@ func patchBadgerClock(gen string, replace map[string]string) {
 		}
 		src := string(b)
 		if strings.Count(src, line) != 1 {
-			infra("badger %s: expiry clock site not found (library version changed?)", f)
+			infra("badger %s: patch site not found (library version changed?)", f)
 		}
-		src = strings.Replace(src, line, strings.Replace(line, "time.Now()", "VerifNow()", 1), 1)
-		src += "\nvar _ = time.Now\n"
+		if f == "txn.go" {
+			src = strings.Replace(src, line, "\tif err := fn(txn); err != nil {\n\t\treturn err\n\t}\n\tVerifBeforeCommit()\n\treturn txn.Commit()\n}", 1)
+		} else {
+			src = strings.Replace(src, line, strings.Replace(line, "time.Now()", "VerifNow()", 1), 1)
+		}
+		if f != "txn.go" {
+			src += "\nvar _ = time.Now\n"
+		}
 		if f == "structs.go" {
 			// (declared in a replaced file: files added to a module-cache package are not seen)
 			src += "\n// VerifNow is the clock record expiry is measured with (verification overlay only).\nvar VerifNow = time.Now\n"
+			src += "\n// VerifBeforeCommit runs in DB.Update between the closure and the commit (verification overlay only).\nvar VerifBeforeCommit = func() {}\n"
 		}
 		dst := filepath.Join(gen, "badger_"+f)
 		os.WriteFile(dst, []byte(src), 0644)
